@@ -8,24 +8,77 @@ Bound    : every multiset of <= K peripherals (K = 4 quick, 6 thorough), every
            sub-runs; a sub-run of length c written `(X)c` or `(X)(c)`, a sub-run
            of length one written `(X)` or `(X)1`).
 Oracle   : identity = (centre, Counter(peripherals)).
+
+Third-wave families (domains in mc/domains/w3_c19.py):
+Strings  : wherever a group is compared / looked up against its canonical name
+           "as a plain string", the name is held as each of: exact str, a
+           subclass of str, numpy.str_ (every case of every family above).
+History  : every (call expected to fail, ordinary construction) pair: the
+           first call is a constructor call whose peripheral list (<= 2 good
+           names over {C, H, C[d], Pt}) holds exactly one bad element (an
+           unhashable list, None, an int, a dict, or the source iterator
+           raising) at any position, or whose centre is not a string, or a
+           Group.parse() of a one-character edit of a canonical name; the
+           second is every identity with <= 2 peripherals over the full
+           alphabet x 3 centres, built by Group(...) and by Group.parse(...),
+           judged like any other case and additionally against an equal group
+           built BEFORE the failed call.  The three calls of a history run
+           back to back in one process; the family as a whole runs in
+           interpreters of its own (it tries to damage process-wide state, and
+           the other families' witnesses are replayed alone).  The failing
+           constructor calls use the centres {C, N[A]}.  If plain
+           constructions stop behaving after some history, every later
+           witness of that process also carries that history.
+Copies   : every identity (<= K peripherals) built by Group(...) and by
+           Group.parse(...), then copied (copy, deepcopy, pickle round trip in
+           the same process; pickle protocols 0, 2, highest) and - the route a
+           'spawn' worker or an on-disk cache takes - pickled here and restored
+           in two other interpreter processes started with different
+           PYTHONHASHSEED values, where it is judged against freshly built
+           groups, name strings, a restored dict keyed by groups and a
+           restored GroupLibrary.
 """
 import collections
+import copy
 import itertools
+import json
 import os
+import pickle
+import subprocess
+import sys
 import tempfile
 
+from .. import VERIF
 from ..runner import Result
+from ..domains import w3_c19 as W3
 
 LEVEL = 'exploration'
 CENTRES = ['C', 'CO', 'C[d]', 'Pt', 'N[A]']
 PERIPH = ['C', 'H', 'C[d]', 'C[.]', 'CO', 'Pt', 'O']
 KMAX = {'quick': 4, 'thorough': 6}
 PAIRMAX = {'quick': 3, 'thorough': 4}
+AFTER_CENTRES = ['C', 'N[A]', 'Pt']     # ordinary calls that follow a failure
+AFTER_K = 2
+AFTER_SHARDS = 6
+PROTOCOLS = [0, 2, pickle.HIGHEST_PROTOCOL]
+READER_SEEDS = ['101', '202', '303']    # two of them, never this process's
 BOUND = {t: 'multisets of <= %d peripherals over %d names x %d centres; all '
             'orderings; all run-length spellings; all ordered pairs of '
             'identities with <= %d peripherals compared directly; one peripheral '
-            'repeated 7..30, 99..101, 120 times' % (
-                KMAX[t], len(PERIPH), len(CENTRES), PAIRMAX[t])
+            'repeated 7..30, 99..101, 120 times; every name string also held '
+            'as a str subclass and as numpy.str_; %d calls expected to fail '
+            '(one bad element among <= %d good peripherals, non-string '
+            'centres, one-character edits of 3 names) x %d ordinary '
+            'constructions (identities of <= %d peripherals x %d centres x '
+            '{Group(), parse}) as two-call histories; every identity of <= %d '
+            'peripherals copied / deep-copied / pickled (protocols 0, 2, %d) in '
+            'process and restored in 2 other processes with other hash seeds'
+            % (KMAX[t], len(PERIPH), len(CENTRES), PAIRMAX[t],
+               len(W3.failing_calls()), W3.FAIL_GOOD_MAX,
+               len(AFTER_CENTRES) * 2 * sum(
+                   len(list(itertools.combinations_with_replacement(PERIPH, k)))
+                   for k in range(AFTER_K + 1)),
+               AFTER_K, len(AFTER_CENTRES), KMAX[t], pickle.HIGHEST_PROTOCOL)
          for t in KMAX}
 RULE = ('every (centre, ordering, run-length spelling) over the stated '
         'alphabets is constructed through Group(...) (list, tuple, one-shot iterator, '
@@ -33,9 +86,20 @@ RULE = ('every (centre, ordering, run-length spelling) over the stated '
         '(loaded twice: two scheme objects); a case is non-trivial when its '
         'text differs from the canonical name of its group (so the '
         'normalisation has work to do) or, for pairs, when the two identities '
-        'differ in exactly one peripheral or one repeat count')
+        'differ in exactly one peripheral or one repeat count; every '
+        'comparison with the canonical name is made with the name held as '
+        'str, as a str subclass and as numpy.str_; a two-call history '
+        '(call with malformed input, then ordinary construction, same '
+        'process) is non-trivial when the first call really raised; a copy '
+        'is non-trivial when it was restored in a process with another '
+        'string-hash salt')
 ASSUMPTIONS = ['CPython dict/hash semantics', 'PyYAML for the library file',
-               'statement is silent about malformed names: not judged']
+               'statement is silent about malformed names: not judged '
+               '(but what is built AFTER such a call is judged)',
+               'numpy.str_ and a do-nothing str subclass stand for "held as '
+               'another kind of plain string"',
+               'pickle / copy of a Group is a Group (default object protocol); '
+               'the other processes differ in PYTHONHASHSEED only']
 
 
 def compositions(n):
@@ -87,6 +151,9 @@ def shards(tier, seed):
     out.append(('library', None))
     out.append(('malformed', None))
     out.append(('large', None))
+    for i in range(AFTER_SHARDS):
+        out.append(('after-failure', i, AFTER_SHARDS))
+    out.append(('copies', None))
     return out
 
 
@@ -94,10 +161,55 @@ def ident(centre, ms):
     return (centre, tuple(sorted(collections.Counter(ms).items())))
 
 
-def _check_one(R, G, centre, ms, seq, text, how):
-    """One constructed object against the canonical object of its identity."""
+def _compare(G, g, g0):
+    """Everything the statement says about two objects of ONE identity: `g`
+    (however obtained) against the canonical object `g0` and its name, the
+    name held as every kind of plain string."""
+    probs = []
+    if not (g == g0):
+        probs.append('not equal to the canonical object')
+    if g != g0:
+        probs.append('!= is true against the canonical object')
+    if hash(g) != hash(g0):
+        probs.append('hash differs')
+    if {g0: 1}.get(g) != 1:
+        probs.append('dict lookup misses')
+    if not (g == g0.name) or not (g0.name == g):
+        probs.append('not interchangeable with canonical name string')
+    if (g != g0.name) or (g0.name != g):
+        probs.append('!= is true against its own canonical name string')
+    if {g0.name: 1}.get(g) != 1 or {g: 1}.get(g0.name) != 1:
+        probs.append('string/dict interop misses')
+    back = G.parse(None, g.name)
+    if not (back == g) or hash(back) != hash(g):
+        probs.append('canonical name %r does not parse back' % g.name)
+    for kind, make in W3.EXTRA_STR_KINDS:
+        s = make(g0.name)
+        if not (g == s) or not (s == g):
+            probs.append('%s name: not interchangeable with it' % kind)
+        if (g != s) or (s != g):
+            probs.append('%s name: != is true against it' % kind)
+        if {s: 1}.get(g) != 1 or {g: 1}.get(s) != 1:
+            probs.append('%s name: dict interop misses' % kind)
+        if len({g, s}) != 1 or g not in [s] or s not in [g]:
+            probs.append('%s name: set/list membership misses' % kind)
+    return probs
+
+
+def _check_one(R, G, centre, ms, seq, text, how, history=None):
+    """One constructed object against the canonical object of its identity.
+    `history` (third wave): dict(fail=<call descriptor>, pre=<equal group
+    built before that call was made, or the exception building it raised>,
+    earlier=<an earlier two-call history of this process after which plain
+    constructions stopped behaving, or None>); the witness then carries that
+    history and the case has its own key prefix."""
     wit = dict(kind='spelling', centre=centre, multiset=list(ms),
                order=list(seq), text=text, how=how)
+    prefix = ''
+    if history is not None:
+        wit = dict(wit, kind='after-failure', fail=history['fail'],
+                   earlier=history.get('earlier'))
+        prefix = 'after-failure:'
     try:
         g0 = G(None, centre, sorted(ms))
         if how == 'ctor':
@@ -110,31 +222,26 @@ def _check_one(R, G, centre, ms, seq, text, how):
             g = G(None, centre, (p for p in seq))
         else:
             g = G.parse(None, text)
-        probs = []
-        if not (g == g0):
-            probs.append('not equal to the canonical object')
-        if g != g0:
-            probs.append('!= is true against the canonical object')
-        if hash(g) != hash(g0):
-            probs.append('hash differs')
-        if {g0: 1}.get(g) != 1:
-            probs.append('dict lookup misses')
-        if not (g == g0.name) or not (g0.name == g):
-            probs.append('not interchangeable with canonical name string')
-        if (g != g0.name) or (g0.name != g):
-            probs.append('!= is true against its own canonical name string')
-        if {g0.name: 1}.get(g) != 1 or {g: 1}.get(g0.name) != 1:
-            probs.append('string/dict interop misses')
-        back = G.parse(None, g.name)
-        if not (back == g) or hash(back) != hash(g):
-            probs.append('canonical name %r does not parse back' % g.name)
+        probs = _compare(G, g, g0)
+        if history is not None:
+            pre = history['pre']
+            if isinstance(pre, Exception):
+                raise pre
+            for label, x in (('the group', g), ('the canonical object', g0)):
+                if not (x == pre) or (x != pre) or hash(x) != hash(pre) or \
+                        {pre: 1}.get(x) != 1 or {x: 1}.get(pre) != 1 or \
+                        not (x == pre.name) or {pre.name: 1}.get(x) != 1:
+                    probs.append('%s differs from an equal group built '
+                                 'before the failed call (%r / %r)'
+                                 % (label, x.name, pre.name))
     except Exception as e:      # noqa
         probs = ['raised %s: %s' % (type(e).__name__, e)]
     R.outcomes['ok' if not probs else 'bad:' + probs[0][:40]] += 1
     if probs:
-        R.violation('%s:%s' % (how, probs[0][:40]),
-                    '%s via %s (%r): %s' % (ident(centre, ms), how, text,
-                                            '; '.join(probs)), wit)
+        R.violation('%s%s:%s' % (prefix, how, probs[0][:40]),
+                    '%s%s via %s (%r): %s' % (
+                        'after %r: ' % (history['fail'],) if history else '',
+                        ident(centre, ms), how, text, '; '.join(probs)), wit)
 
 
 def run_spell(R, centre, k, first):
@@ -198,6 +305,15 @@ def run_pairs(R, i, n, tier):
                     bad = 'dict lookup finds a different identity'
                 elif ga == gb.name or gb.name == ga:
                     bad = 'equal to the name of a different identity'
+                else:
+                    for kind, make in W3.EXTRA_STR_KINDS:
+                        sb = make(gb.name)
+                        if ga == sb or sb == ga or not (ga != sb) or \
+                                {ga: 1}.get(sb) is not None or \
+                                {sb: 1}.get(ga) is not None:
+                            bad = ('equal to the name (held as %s) of a '
+                                   'different identity' % kind)
+                            break
             except Exception as e:      # noqa
                 bad = 'raised %s' % type(e).__name__
             R.outcomes['pair-ok' if not bad else 'pair-bad'] += 1
@@ -258,9 +374,11 @@ def run_library(R, tier):
                                                   reversed(sorted(ms))))
             want = n + 0.5
             probs = []
-            for label, key in (('canonical object', canon),
+            for label, key in [('canonical object', canon),
                                ('canonical name', canon.name),
-                               ('re-spelled object', other)):
+                               ('re-spelled object', other)] + [
+                    ('canonical name held as %s' % kind, make(canon.name))
+                    for kind, make in W3.EXTRA_STR_KINDS]:
                 try:
                     ps = lib[key]
                     ok = ('thermochem' in ps and
@@ -329,17 +447,268 @@ def run_malformed(R):
     """Not judged (statement silent): outcome histogram of one-character
     edits of canonical names."""
     from pgradd.GroupAdd.Group import Group
-    for name in ['C(C)(H)3', 'CO(C[d])(O)', 'N[A](H)2(Pt)']:
-        for i in range(len(name) + 1):
-            for ch in ['', '(', ')', '2', 'x', ' ']:
-                for text in (name[:i] + ch + name[i:], name[:i] + ch + name[i + 1:]):
-                    R.evals += 1
-                    try:
-                        Group.parse(None, text)
-                        R.outcomes['malformed:accepted(unjudged)'] += 1
-                    except Exception as e:   # noqa
-                        R.outcomes['malformed:%s(unjudged)' %
-                                   type(e).__name__] += 1
+    for text in W3.malformed_texts():      # same names, edits and order as before
+        R.evals += 1
+        try:
+            Group.parse(None, text)
+            R.outcomes['malformed:accepted(unjudged)'] += 1
+        except Exception as e:   # noqa
+            R.outcomes['malformed:%s(unjudged)' %
+                       type(e).__name__] += 1
+
+
+# ------------------------------------------------- third wave: histories
+
+def good_calls():
+    """The ordinary constructions made after a failed call: every identity of
+    <= AFTER_K peripherals x AFTER_CENTRES, by Group(...) (peripherals in
+    descending order) and by Group.parse(...) (one bracket per peripheral,
+    descending order)."""
+    out = []
+    for c in AFTER_CENTRES:
+        for k in range(AFTER_K + 1):
+            for ms in itertools.combinations_with_replacement(PERIPH, k):
+                seq = tuple(sorted(ms, reverse=True))
+                out.append((c, ms, seq, None, 'ctor'))
+                out.append((c, ms, seq,
+                            c + ''.join('(%s)' % p for p in seq), 'parse'))
+    return out
+
+
+def _after_one(R, G, call, good, earlier=None):
+    """One two-call history in this process: an equal group is built first
+    (it must stay equal to what is built afterwards), then the call with
+    malformed input is made and whatever it does is swallowed, then the
+    ordinary construction is judged."""
+    c, ms, seq, text, how = good
+    try:
+        pre = G(None, c, sorted(ms))
+    except Exception as e:      # noqa  (only after an earlier history)
+        pre = e
+    outcome = W3.perform(G, call)
+    _check_one(R, G, c, ms, seq, text, how,
+               history=dict(fail=call, pre=pre, earlier=earlier))
+    return outcome
+
+
+def _process_sane(G):
+    """Do plain constructions, with no failed call before them, still behave
+    in this process?"""
+    try:
+        return not _compare(G, G(None, 'C', ['H', 'C', 'H']),
+                            G(None, 'C', ['C', 'H', 'H']))
+    except Exception:       # noqa
+        return False
+
+
+def run_after(R, i, n):
+    """Runs in a process of its own (see run_after_isolated)."""
+    from pgradd.GroupAdd.Group import Group
+    goods = good_calls()
+    taint = None
+    for call in W3.failing_calls()[i::n]:
+        for good in goods:
+            R.evals += 1
+            seen = R.extra['violating_cases']
+            outcome = _after_one(R, Group, call, good, earlier=taint)
+            if taint is None and R.extra['violating_cases'] > seen and \
+                    not _process_sane(Group):
+                # from here on this process is damaged: later witnesses carry
+                # the history that did it
+                taint = dict(fail=call, good=list(good))
+                R.notes.append('history family: plain constructions stopped '
+                               'behaving after %r then %r' % (call, good))
+            if outcome != 'accepted':
+                R.nontrivial += 1
+            R.outcomes['first call of a history: %s %s (unjudged)' % (
+                call['via'], outcome)] += 1
+        R.sample(dict(history=[call, 'then %s of %s' % (goods[-1][4], ident(
+            goods[-1][0], goods[-1][1]))]), limit=1)
+
+
+def _after_child(i, n, outpath):
+    R = Result()
+    run_after(R, i, n)
+    with open(outpath, 'w') as f:
+        json.dump(R.pack(), f, default=str)
+
+
+def run_after_isolated(R, i, n):
+    """The history family tries to damage process-wide state; it gets an
+    interpreter of its own so that the other families of this worker (whose
+    witnesses are replayed alone) never run in a damaged process."""
+    with tempfile.TemporaryDirectory(prefix='pgv_c19h_') as d:
+        outp = os.path.join(d, 'out.json')
+        p = subprocess.run(
+            [sys.executable, '-c', 'import sys; from mc.props import c19; '
+             'c19._after_child(int(sys.argv[1]), int(sys.argv[2]), sys.argv[3])',
+             str(i), str(n), outp], cwd=VERIF, env=dict(os.environ),
+            stdin=subprocess.DEVNULL, stdout=subprocess.PIPE,
+            stderr=subprocess.STDOUT, timeout=3600)
+        if p.returncode != 0 or not os.path.exists(outp):
+            raise RuntimeError('history child %d/%d failed rc=%s: %s' % (
+                i, n, p.returncode, p.stdout.decode(errors='replace')[-800:]))
+        pack = json.load(open(outp))
+    R.evals += pack['evals']
+    R.nontrivial += pack['nontrivial']
+    R.outcomes.update(pack['outcomes'])
+    R.extra.update(pack['extra'])
+    R.violations.extend(pack['violations'])
+    R.samples.extend(pack['samples'])
+    R.notes.extend(pack['notes'][:3])
+
+
+# ------------------------------------------------- third wave: copies
+
+def _copy_payload(ids):
+    """What is copied: per identity one object by Group(...) and one by
+    Group.parse(...), a dict keyed by the former and a GroupLibrary keyed by
+    the latter."""
+    from pgradd.GroupAdd.Group import Group
+    from pgradd.GroupAdd.Library import GroupLibrary
+    objs = []
+    for n, (c, ms) in enumerate(ids):
+        objs.append((n, 'ctor', Group(None, c, list(reversed(ms)))))
+        objs.append((n, 'parse', Group.parse(None, c + ''.join(
+            '(%s)' % p for p in reversed(ms)))))
+    keyed = dict((o, n) for n, how, o in objs if how == 'ctor')
+    lib = GroupLibrary(None, dict((o, {'entry': n}) for n, how, o in objs
+                                  if how == 'parse'))
+    return objs, keyed, lib
+
+
+def _judge_restored(ids, objs, keyed, lib):
+    """Restored objects against FRESHLY built ones of the same identity.
+    Returns (evals, [(n, how, [problems])])."""
+    from pgradd.GroupAdd.Group import Group
+    out = []
+    evals = 0
+    for n, how, u in objs:
+        evals += 1
+        c, ms = ids[n]
+        try:
+            g0 = Group(None, c, sorted(ms))
+            probs = _compare(Group, u, g0)
+            if how == 'ctor':
+                for label, key in [('a fresh equal group', g0)] + [
+                        ('its name held as %s' % kind, make(g0.name))
+                        for kind, make in W3.STR_KINDS]:
+                    if keyed.get(key) != n or key not in keyed:
+                        probs.append('restored dict keyed by groups is not '
+                                     'indexed by %s' % label)
+                    if lib[key] != {'entry': n} or key not in lib:
+                        probs.append('restored library is not indexed by %s'
+                                     % label)
+                if keyed.get(u) != n or lib[u] != {'entry': n}:
+                    probs.append('restored dict / library not indexed by the '
+                                 'restored group')
+        except Exception as e:      # noqa
+            probs = ['raised %s: %s' % (type(e).__name__, e)]
+        if probs:
+            out.append((n, how, probs))
+    if len(keyed) != len(ids) or len(lib) != len(ids):
+        out.append((0, 'ctor', ['restored dict / library has %d / %d entries '
+                                'for %d identities' % (len(keyed), len(lib),
+                                                       len(ids))]))
+    return evals, out
+
+
+def _pickle_reader(inpath, outpath):
+    """Runs in ANOTHER interpreter (other PYTHONHASHSEED): restore, judge."""
+    with open(inpath, 'rb') as f:
+        box = pickle.load(f)            # builtins only at this level
+    ids = [(c, tuple(ms)) for c, ms in box['ids']]
+    res = dict(evals=0, problems=[], same_salt=(
+        hash('pgv-c19-salt-probe') == box['probe']))
+    for proto, blob in box['blobs']:
+        try:
+            objs, keyed, lib = pickle.loads(blob)
+            ev, probs = _judge_restored(ids, objs, keyed, lib)
+        except Exception as e:      # noqa
+            ev, probs = 1, [(0, 'ctor', ['restoring raised %s: %s' % (
+                type(e).__name__, e)])]
+        res['evals'] += ev
+        res['problems'] += [[proto, n, how, p] for n, how, p in probs]
+    with open(outpath, 'w') as f:
+        json.dump(res, f)
+
+
+def reader_seeds():
+    own = os.environ.get('PYTHONHASHSEED', '')
+    return [s for s in READER_SEEDS if s != own][:2]
+
+
+def run_copies(R, ids, seeds=None, protocols=None):
+    from pgradd.GroupAdd.Group import Group   # noqa
+    seeds = reader_seeds() if seeds is None else seeds
+    protocols = PROTOCOLS if protocols is None else protocols
+    objs, keyed, lib = _copy_payload(ids)
+
+    def report(route, proto, n, how, probs, seed=None):
+        c, ms = ids[n]
+        R.violation('copies:%s:%s' % (route, probs[0][:40]),
+                    '%s built by %s, %s (pickle protocol %s, reader '
+                    'PYTHONHASHSEED %s): %s' % (ident(c, ms), how, route, proto,
+                                                seed, '; '.join(probs)),
+                    dict(kind='copies', centre=c, multiset=list(ms), how=how,
+                         route=route, proto=proto, reader_seed=seed))
+
+    # same process
+    routes = [('copy.copy', None, copy.copy), ('copy.deepcopy', None,
+                                               copy.deepcopy)]
+    for proto in protocols:
+        routes.append(('pickle round trip in one process', proto,
+                       lambda x, proto=proto: pickle.loads(
+                           pickle.dumps(x, proto))))
+    for route, proto, fn in routes:
+        try:
+            robjs = [(n, how, fn(o)) for n, how, o in objs]
+            ev, probs = _judge_restored(ids, robjs, fn(keyed), fn(lib))
+        except Exception as e:      # noqa
+            ev, probs = 1, [(0, 'ctor', ['copying raised %s: %s' % (
+                type(e).__name__, e)])]
+        R.evals += ev
+        R.outcomes['copies:%s:ok' % route] += ev - len(probs)
+        for n, how, p in probs:
+            R.outcomes['copies:%s:bad' % route] += 1
+            report(route, proto, n, how, p)
+    # other processes
+    with tempfile.TemporaryDirectory(prefix='pgv_c19p_') as d:
+        inp = os.path.join(d, 'in.pickle')
+        with open(inp, 'wb') as f:
+            pickle.dump(dict(ids=[[c, list(ms)] for c, ms in ids],
+                             probe=hash('pgv-c19-salt-probe'),
+                             blobs=[(proto, pickle.dumps((objs, keyed, lib),
+                                                         proto))
+                                    for proto in protocols]), f, 2)
+        for seed in seeds:
+            outp = os.path.join(d, 'out-%s.json' % seed)
+            p = subprocess.run(
+                [sys.executable, '-c', 'import sys; from mc.props import c19; '
+                 'c19._pickle_reader(sys.argv[1], sys.argv[2])', inp, outp],
+                cwd=VERIF, env=dict(os.environ, PYTHONHASHSEED=seed),
+                stdin=subprocess.DEVNULL, stdout=subprocess.PIPE,
+                stderr=subprocess.STDOUT, timeout=1800)
+            if p.returncode != 0 or not os.path.exists(outp):
+                raise RuntimeError('reader process (PYTHONHASHSEED=%s) failed '
+                                   'rc=%s: %s' % (seed, p.returncode,
+                                                  p.stdout.decode(errors='replace')[-800:]))
+            res = json.load(open(outp))
+            R.evals += res['evals']
+            if res['same_salt']:
+                R.outcomes['copies:other process had the SAME hash salt '
+                           '(vacuous)'] += res['evals']
+            else:
+                R.nontrivial += res['evals']
+            route = 'restored in another process'
+            R.outcomes['copies:%s:ok' % route] += res['evals'] - len(
+                res['problems'])
+            for proto, n, how, probs in res['problems']:
+                R.outcomes['copies:%s:bad' % route] += 1
+                report(route, proto, n, how, probs, seed)
+    R.sample(dict(copied=str(ident(*ids[-1])), routes=[r[0] for r in routes] +
+                  ['restored in processes with PYTHONHASHSEED %s' % seeds]),
+             limit=1)
 
 
 def run_shard(shard, tier):
@@ -352,6 +721,10 @@ def run_shard(shard, tier):
         run_library(R, tier)
     elif shard[0] == 'large':
         run_large_counts(R)
+    elif shard[0] == 'after-failure':
+        run_after_isolated(R, shard[1], shard[2])
+    elif shard[0] == 'copies':
+        run_copies(R, all_idents(KMAX[tier]))
     else:
         run_malformed(R)
     return R
@@ -368,8 +741,27 @@ def replay(w):
         gb = Group.parse(None, w['b'][0] + ''.join(
             '(%s)' % p for p in reversed(w['b'][1])))
         bad = (ga == gb) or not (ga != gb) or {ga: 1}.get(gb) is not None
+        for kind, make in W3.STR_KINDS:
+            sb = make(gb.name)
+            bad = bad or ga == sb or sb == ga or not (ga != sb) or \
+                {ga: 1}.get(sb) is not None or {sb: 1}.get(ga) is not None
         return dict(violates=bool(bad), detail='%r vs %r: eq=%s hash_eq=%s' % (
             ga, gb, ga == gb, hash(ga) == hash(gb)))
+    elif w['kind'] == 'after-failure':
+        # the whole history, in this fresh process: equal group, failed call,
+        # ordinary construction
+        if w.get('earlier'):
+            c, ms, seq, text, how = w['earlier']['good']
+            _after_one(Result(), Group, w['earlier']['fail'],
+                       (c, tuple(ms), tuple(seq), text, how))
+        _after_one(R, Group, w['fail'], (
+            w['centre'], tuple(w['multiset']), tuple(w['order']), w['text'],
+            w['how']), earlier=w.get('earlier'))
+    elif w['kind'] == 'copies':
+        run_copies(R, [(w['centre'], tuple(w['multiset']))],
+                   seeds=[w['reader_seed']] if w.get('reader_seed') else [],
+                   protocols=[w['proto']] if w.get('proto') is not None
+                   else PROTOCOLS)
     else:
         run_library(R, 'quick')
     return dict(violates=bool(R.violations),
@@ -383,8 +775,21 @@ MANIFEST = dict(
          'spelling, through Group(), Group.parse() and library-file keys, is '
          'compared with the identity model (centre, Counter(peripherals)); '
          'all ordered pairs of small distinct identities are compared '
-         'directly. Exhaustive inside the bound.',
+         'directly. Every comparison with a name string is repeated with '
+         'the name held as a str subclass and as numpy.str_. Every pair '
+         '(call with malformed input: one bad element among <= 2 good '
+         'peripherals, a non-string centre, a one-character edit of a name; '
+         'then an ordinary construction of every identity of <= 2 '
+         'peripherals x 3 centres) is run back to back in one process and '
+         'the second group judged, also against an equal group built before. '
+         'Every identity is copied, deep-copied, pickled (3 protocols) and '
+         'restored in two other interpreter processes with different '
+         'PYTHONHASHSEED, and judged there against fresh groups, names, a '
+         'restored dict and a restored GroupLibrary. Exhaustive inside the '
+         'bound.',
     note='Names outside the alphabet and more than 6 peripherals are not '
          'covered; malformed names are enumerated but not judged (statement '
-         'silent).',
+         'silent); histories longer than two calls, str subclasses that '
+         'override comparison, and copies by other serialisers are not '
+         'covered.',
     ref='5/C19')
